@@ -71,6 +71,24 @@ def run_case(ctx, rng, idx):
         trace = ["core_periphery"]
         cfg.uni_name = "wide"
         cfg.labels = list(h.get_nodes())[:12] + [10**6, 10**6 + 1]
+    elif kind == "H" and (idx == 6 or (ctx.tier == "thorough" and idx % 500 == 18)):
+        # many hyperedges (beyond 64 / 128 / 256), weighted with non-unit weights everywhere - also on the EMPTY hyperedge and on
+        # singletons -, isolated nodes: a small selection touches a small part of a large source
+        import hypergraphx as hgx
+
+        ctx.event("many-hyperedges-source(with a weighted empty hyperedge)")
+        n_ = rng.choice([30, 45, 60])
+        labs = rng.sample(range(-40, 400), n_)
+        h = hgx.Hypergraph(weighted=True)
+        h.add_nodes(labs)
+        target = rng.choice([70, 140, 300])
+        while h.num_edges() < target:
+            e = tuple(rng.sample(labs[: n_ - 3], rng.choice([1, 2, 2, 3, 3, 4, 5])))
+            h.add_edge(e, weight=rng.choice([0.5, 2, 2.5, 3, 7]))
+        h.add_edge((), weight=2.5, metadata={"empty": True})
+        trace = ["many-hyperedges"]
+        cfg.uni_name = "wide"
+        cfg.labels = list(labs)[:12] + [10**6, 10**6 + 1]
     else:
         try:
             live, trace = history.run_history(history.BuildCtx(ctx, "C05"), rng, cfg, battery_every=0, raw=raw)
@@ -209,7 +227,7 @@ def run_case(ctx, rng, idx):
     if len(nodes) <= 6:
         subsets = [list(c_) for r in range(0, len(nodes) + 1) for c_ in itertools.combinations(nodes, r)]
     else:
-        subsets = [rng.sample(nodes, rng.randint(0, len(nodes))) for _ in range(24)] + [list(nodes)]
+        subsets = [rng.sample(nodes, rng.randint(0, len(nodes))) for _ in range(24)] + [list(nodes)] + [rng.sample(nodes, k_) for k_ in (1, 2, 3, 4)]
     for sub in subsets:
         sub = list(sub)
         rng.shuffle(sub)
